@@ -18,10 +18,10 @@ def run_scan(chk, endings, model_cfg, nrand, maxscripts):
         if v:
             chk.violation(v["sig"], v["desc"], dict(kind="panic"))
             return None, r
-        raise vlib.MachineryError("scan driver produced no result:\n" + t["out"][-3000:])
+        raise vlib.driver_failed("scan driver produced no result", t["out"])
     res = json.load(open(resf))
     if t["rc"] != 0:
-        raise vlib.MachineryError("scan driver failed:\n" + t["out"][-3000:])
+        raise vlib.driver_failed("scan driver failed", t["out"])
     for v in res["violations"] or []:
         chk.violation(v["sig"], v["desc"], dict(kind="scan", detail=v))
     lines = [l for l in open(os.path.join(wd, "scan_trace.ndjson")).read().splitlines() if l.strip()]
